@@ -9,3 +9,35 @@ claim("C07",
   note="Trusted: go/ssa lowering; the classification of calls into events (checker/an/trace.go); message kind = static builder type; "
        "interference model (other goroutines only move SuccessfulLogged→WaitingTestReqAnswer→Disconnect / →WaitingLogoutAnswer). Application sends through Session.Send/Handler.Send are out of scope.",
   design_ref="DESIGN.md §3 C07, §2 E1")
+
+claim("C06",
+  technique="static typestate analysis over go/ssa paths (abstract logon-state set, check-sequence constraints), path-condition comparison of the parameter-check decision tree, operand-flow matching",
+  text="Safety rules decided for every inbound history at once (they hold per inbound message in every abstract state): each transition to SuccessfulLogged anywhere in package session sits behind "
+       "parse-ok + the state read as WaitingLogonAnswer, or behind parse-ok + WaitingLogon + parameter check + application approval + timer start, or is a restoration from WaitingTestReqAnswer, which itself is entered only from logged-on states; "
+       "the parameter check's decision tree equals method∈allowed ∧ Min≤HeartBtInt≤Max with the right tag per refusal; every refusal path emits exactly one Reject with the Logon's MsgSeqNum and changes no state; "
+       "the reply echoes the received interval and method; replaced settings keep the limits; the initiator's first message is its Logon built from the configured settings. Structural necessary conditions; the callback's behaviour and value-level content of messages are not decided.",
+  note="Trusted: go/ssa, the event classification and splicing bounds of checker/an/trace.go, canonical rendering of SSA values (checker/an/paths.go), the interference model for other goroutines.",
+  design_ref="DESIGN.md §3 C06, §2 E1")
+
+claim("C14",
+  technique="static path enumeration over go/ssa of the TestRequest handler with operand-flow matching; codec identity check on fix.String",
+  text="On every SSA path of the TestRequest handler with parse ok and the logged-on test true: exactly one send, of kind Heartbeat, synchronous, whose TestReqID operand is TestReqID() of the builder the handler "
+       "parsed its own input into; fix.String converts bytes↔string without transformation. A structural necessary condition for the echo; content-dependent mis-location of field 112 by the decoder's substring search is not decided (C18 decides anchoring).",
+  note="Trusted: go/ssa; message kind = static builder type; sequential dispatch is C04's rule F5, the decoder's extraction is C18/C02.",
+  design_ref="DESIGN.md §3 C14")
+
+claim("C15",
+  technique="static typestate analysis over go/ssa paths of the Logout handler and Stop; registration-liveness (no Clean after Handle on any path, defers replayed); loop-shape check of the event pool",
+  text="Logout handler: state read SuccessfulLogged ⇒ exactly one Logout sent and the final abstract state excludes SuccessfulLogged; state read WaitingLogoutAnswer ⇒ nothing sent and changeState(ReceivedLogoutAnswer, true), "
+       "which changeState maps to the logout event. Stop: Logout sent in WaitingLogoutAnswer, AfterFunc(configured CloseTimeout, cancel), logout-event callback that stops that very timer and cancels; the registration is not wiped before Stop returns; "
+       "the pool keeps order and stops at false. Timing (answer vs. deadline) is not decided.",
+  note="Trusted: go/ssa, event classification, time.AfterFunc/Timer.Stop semantics, context cancellation.",
+  design_ref="DESIGN.md §3 C15")
+
+claim("C16",
+  technique="static path enumeration over go/ssa of the five administrative handlers, classified by parse outcome and by the refined value of the first state read; trace constraints; operand-flow matching in the raw-bytes reject",
+  text="For each administrative handler: parsing is the first event, of the handler's own bytes, into a fresh builder of its own type; every parse-error path and every not-permitted-in-this-state path contains exactly one Reject send, "
+       "no state change that alters logged-on-ness, no cancellation, and returns true so dispatch continues; every parse-ok path of Heartbeat/TestRequest/ResendRequest is behind a logged-on test; the raw-bytes reject takes RefSeqNum from "
+       "Atoi(ValueByTag(offending bytes, MsgSeqNum tag)) and names that tag when the lookup or the conversion fails. Does not decide that later valid messages are processed normally beyond absence of state change/cancel.",
+  note="Trusted: go/ssa, event classification, canonical rendering of operands; which inputs make Unmarshal fail is C03's subject.",
+  design_ref="DESIGN.md §3 C16")
